@@ -131,22 +131,39 @@ class Instance:
         self.sentinel = None
         self.nsent = 0
 
+    def launch(self):
+        """Popen without waiting (rig.Squid.start does both); called from the main thread only"""
+        sq = self.squid
+        sq._rm_shm()
+        sq.errlog = open(os.path.join(sq.dir, "stderr.log"), "ab")
+        sq.proc = subprocess.Popen([sq.binary(), "-N", "-n", sq.name, "-f", sq.conf_path, "-d1"], env=sq.env, stdout=sq.errlog, stderr=sq.errlog,
+                                   preexec_fn=rig._child_setup)
+        sq._watchdog(sq.proc.pid)
+
+    def ready(self):
+        return "Accepting HTTP Socket connections" in self.squid.cache_log()
+
     def start(self):
+        """blocking (re)start with a fresh port, for the instances whose parallel launch failed"""
         for attempt in range(4):
+            try:
+                self.squid.stop(kill=True)
+            except Exception:
+                pass
+            self.squid.port = rig.free_port()
+            text = open(self.squid.conf_path).read()
+            text = re.sub(r"http_port 127\.0\.0\.1:\d+", "http_port 127.0.0.1:%d" % self.squid.port, text)
+            open(self.squid.conf_path, "w").write(text)
+            try:
+                os.truncate(self.logpath, 0)
+            except OSError:
+                pass
             try:
                 self.squid.start(wait=90)
                 return self
             except RuntimeError:
                 if attempt == 3:
                     raise
-                try:
-                    self.squid.stop(kill=True)
-                except Exception:
-                    pass
-                self.squid.port = rig.free_port()
-                text = open(self.squid.conf_path).read()
-                text = re.sub(r"http_port 127\.0\.0\.1:\d+", "http_port 127.0.0.1:%d" % self.squid.port, text)
-                open(self.squid.conf_path, "w").write(text)
         return self
 
     def c46_log(self):
@@ -504,8 +521,20 @@ class E2E:
         for t in ttls:
             idx += 1
             self.instances.append(Instance(stage, relay, t, idx))
-        for i in self.instances:      # squid is started from the main thread only
-            i.start()
+        # squid is started from the main thread only; all instances are launched first and awaited together
+        for i in self.instances:
+            i.launch()
+        t0 = time.time()
+        pending = list(self.instances)
+        while pending and time.time() - t0 < 120 * rig.VERIF_SLOW:
+            pending = [i for i in pending if not i.ready() and i.squid.proc.poll() is None]
+            failed = [i for i in self.instances if i.squid.proc is not None and i.squid.proc.poll() is not None]
+            if failed:
+                break
+            time.sleep(0.05)
+        for i in self.instances:
+            if not i.ready() or i.squid.proc.poll() is not None:
+                i.start()
             self.pools.setdefault(i.ttl, []).append(i)
 
     def squids(self):
